@@ -64,6 +64,9 @@ def base_plan(seed=1, **kw):
         # upload target only: the downloader resets the file connection after `after` bytes, drops its P links, is from
         # then on reachable as `then` says, and asks for the file again `requeue_delay` later
         'ul_break': None,
+        # download target only: the uploader resets the first file connection after `after` bytes, drops its P links and is
+        # from then on reachable as `then` says: the automatic retry of the INCOMPLETE download hangs in its connect
+        'dl_break': None,
         # download target only: the uploader (which holds an open control connection) offers the file this many seconds
         # after the stop call was ISSUED - i.e. possibly while the call is still waiting for the tasks it cancelled
         'offer_on_stop': None,
@@ -132,6 +135,14 @@ def corpus(tier):
                         reach={'bob': {'direct': reach, 'delay': 6.0 if reach == 'slow' else None, 'pierce': False}},
                         stop={'transfer': 0, 'op': op, 'k': 99, 'plus_iter': 0, 'fallback_at': t},
                         offer_on_stop=d, slow_listener={'state': 'CLOSING', 'delay': 0.5}, chunk_delay=0.01))
+    # a download broken mid-file whose automatic retry hangs in a slow / black-holed connect when the user stops it
+    for op in OPS:
+        for then, then_delay in (('slow', 6.0), ('blackhole', None)):
+            for t in (0.5, 1.5, 3.0, 8.0):
+                out.append(base_plan(
+                    transfers=[{'id': 0, 'dir': 'down', 'peer': 'bob', 'size': 40000, 'at': 0.0}],
+                    stop={'transfer': 0, 'op': op, 'k': 99, 'plus_iter': 0, 'fallback_at': t},
+                    dl_break={'after': 8192, 'then': then, 'then_delay': then_delay}, chunk_delay=0.001))
     # pause first, abort / remove a little later (the call starts from PAUSED)
     for direction in ('down', 'up'):
         for op in ('abort', 'remove'):
@@ -183,6 +194,10 @@ def generate(rng, index, tier):
     if rng.random() < 0.25:
         plan['spontaneous'] = rng.choice([0.0, 0.05, 0.5, 3.0, 12.0])
     target = transfers[plan['stop']['transfer']]
+    if target['dir'] == 'down' and rng.random() < 0.15:
+        then = rng.choice(('slow', 'blackhole', 'refused'))
+        plan['dl_break'] = {'after': rng.choice([1, 4096, 30000]), 'then': then,
+                            'then_delay': rng.uniform(2.0, 8.0) if then == 'slow' else None}
     if plan['stop']['op'] in ('abort', 'remove') and rng.random() < 0.15:
         plan['stop']['pre_pause'] = rng.choice([0.0, 0.01, 1.0, 6.0])
     if target['dir'] == 'down' and rng.random() < 0.2:
@@ -203,6 +218,8 @@ def simplify(plan):
         yield dict(plan, spontaneous=None)
     if plan.get('ul_break'):
         yield dict(plan, ul_break=None)
+    if plan.get('dl_break'):
+        yield dict(plan, dl_break=None)
     if plan.get('offer_on_stop') is not None:
         yield dict(plan, offer_on_stop=None)
     if plan.get('slow_listener'):
@@ -492,6 +509,11 @@ def _run(world: World, plan):
             beh = {'chunk_delay': plan.get('chunk_delay', 0.0), 'chunk': 4096, 'queue_delay': plan.get('queue_delay', 0.05)}
             if plan.get('dup_request') and t['id'] == target_spec['id']:
                 beh['dup_request'] = plan['dup_request']
+            brk = plan.get('dl_break') if t['id'] == target_spec['id'] else None
+            if brk:
+                beh['per_attempt'] = [{'send_bytes': int(brk['after']), 'after_send': 'abort'}]
+                beh['on_queue'] = 'start'
+                xp.peer.spawn(dl_break_watch(xp, path, brk))
             xp.share(path, pattern_bytes(t['size'], t['id']), **beh)
             if plan.get('offer_on_stop') is not None and t['id'] == target_spec['id']:
                 await xp.peer.spawn(xp.p_link())
@@ -516,6 +538,19 @@ def _run(world: World, plan):
             else:
                 xp.want(path)
             xp.peer.spawn(xp.request_file(path))
+
+    async def dl_break_watch(xp, path, brk):
+        t_end = loop.time() + 120.0
+        while path not in xp.uploads or not xp.uploads[path].sent_total:
+            if loop.time() > t_end:
+                return
+            await asyncio.sleep(0.005)
+        world.net.fired['download_file_conn_reset'] += 1
+        for link in list(xp.p_links):
+            if link.is_open():
+                link.close()
+        if brk.get('then'):
+            reach_now[xp.name] = {'direct': brk['then'], 'delay': brk.get('then_delay')}
 
     async def break_watch(xp, path, brk):
         dl = xp.downloads[path]
